@@ -123,10 +123,14 @@ type recorder struct {
 	fgID int64
 	fg   []string
 	bg   []string
+	tap  func(goroutine int64, ev string) // optional: every event with the goroutine that produced it
 }
 
 func (r *recorder) add(ev string) {
 	id := goid()
+	if r.tap != nil {
+		r.tap(id, ev)
+	}
 	r.mu.Lock()
 	defer r.mu.Unlock()
 	if id == r.fgID {
@@ -250,6 +254,7 @@ type recConn struct {
 	fault func(op, key string, n int) *faultAction
 	nops  int
 	mu    sync.Mutex
+	pre   func() // optional: called before every operation (the scheduler's point)
 }
 
 type faultAction struct {
@@ -276,6 +281,9 @@ func (c *recConn) nextFault(op, key string) *faultAction {
 }
 
 func (c *recConn) Get(key string) ([]byte, error) {
+	if c.pre != nil {
+		c.pre()
+	}
 	var data []byte
 	var err error
 	if fa := c.nextFault("get", key); fa != nil {
@@ -296,6 +304,9 @@ func (c *recConn) Get(key string) ([]byte, error) {
 }
 
 func (c *recConn) Set(key string, val []byte) error {
+	if c.pre != nil {
+		c.pre()
+	}
 	if fa := c.nextFault("set", key); fa != nil {
 		c.rec.add(" F" + describeSet(key, val))
 		return fa.Err
@@ -305,6 +316,9 @@ func (c *recConn) Set(key string, val []byte) error {
 }
 
 func (c *recConn) Delete(key string) error {
+	if c.pre != nil {
+		c.pre()
+	}
 	if fa := c.nextFault("del", key); fa != nil {
 		c.rec.add(fmt.Sprintf(" D %s 0", hx(key)))
 		return fa.Err
@@ -389,6 +403,7 @@ type origin struct {
 	planned time.Time // latest planned completion instant of an active call
 	// optional hook: called with the live request object at call time
 	onCall func(idx int, req *http.Request)
+	pre    func() // optional: called on entry, before the call takes its place in the script
 }
 
 func bodyFor(idx int, hs []Hdr) []byte {
@@ -405,6 +420,9 @@ func bodyFor(idx int, hs []Hdr) []byte {
 }
 
 func (o *origin) RoundTrip(req *http.Request) (*http.Response, error) {
+	if o.pre != nil {
+		o.pre()
+	}
 	o.mu.Lock()
 	idx := o.n
 	o.n++
